@@ -53,7 +53,11 @@ func (s c11Set) del(v int) c11Set {
 
 func c11Val() int {
 	b := verifrt.Byte()
-	verifrt.Assume(b < 3)
+	if verifrt.Thorough() {
+		verifrt.Assume(b < 4)
+	} else {
+		verifrt.Assume(b < 3)
+	}
 
 	return int(b)
 }
@@ -97,10 +101,9 @@ func c11CheckMapSet(set *MapSet[int], m c11Set, what string) {
 // VerifC11MapSet: histories of MapSet operations against the abstract set;
 // a clone and its origin are both continued.
 func VerifC11MapSet() {
+	// (thorough widens the value range, see c11Val; five operations do not
+	// finish within the thorough budget)
 	steps := 4
-	if verifrt.Thorough() {
-		steps = 5
-	}
 	set := NewMapSet[int]()
 	var m c11Set
 	var clone *MapSet[int]
@@ -192,7 +195,7 @@ func c11CheckSorted(set *SortedSliceSet[int], m c11Set, what string) {
 func VerifC11SortedSliceSet() {
 	steps, ninit := 2, 2
 	if verifrt.Thorough() {
-		steps, ninit = 4, 3
+		steps, ninit = 3, 2
 	}
 	var init []int
 	var m c11Set
@@ -310,7 +313,7 @@ func c11CheckRing(rb *RingBuffer[int], capN int, m []int, what string) {
 func VerifC11RingBuffer() {
 	maxCap, steps := 3, 5
 	if verifrt.Thorough() {
-		maxCap, steps = 4, 7
+		maxCap, steps = 4, 6
 	}
 	capN := verifrt.Len(maxCap)
 	rb := NewRingBuffer[int](uint(capN))
